@@ -660,7 +660,10 @@ def tie_prank_sevm(rep, m, tier, r):
     alpha = [("prank", A1), ("prank2", A2, A3), ("startPrank", A1), ("stopPrank",), ("cheat", "hevm"), ("call",), ("create",), ("return",)]
     L = 4 if tier == "quick" else 5
     for k in range(1, L + 1):
-        for t in itertools.product(alpha, repeat=k):
+        tuples = list(itertools.product(alpha, repeat=k))
+        if tier == "quick" and k == 4:
+            tuples = r.sample(tuples, 1500)
+        for t in tuples:
             ops, nc = [], 0
             for o in t:
                 if o[0] == "call":
@@ -718,7 +721,7 @@ def tie_prank_sevm(rep, m, tier, r):
                                  case={"ops": ops, "implementation": tr, "model": mt})
                     break
     rep.count("tie", "L2a prank programs", len(cases))
-    rep.coverage["L2a_prank_programs"] = {"programs": len(cases), "paths": paths, "exhaustive_short_alphabet": len(alpha), "exhaustive_max_len": L}
+    rep.coverage["L2a_prank_programs"] = {"programs": len(cases), "paths": paths, "exhaustive_short_alphabet": len(alpha), "exhaustive_max_len": 3 if tier == "quick" else L}
     return nbad
 
 
@@ -773,6 +776,7 @@ def gen_state_case(r, n):
 
 
 STATE_CORPUS = [
+    ([("store", THIS, 0, 5), ("store", 0xB0B, 7, 9), ("etch", THIS, [0]), ("etch", 0xB0B, [1, 2]), ("SLOAD", 0), ("load", 0xB0B, 7), ("EXTCODESIZE", 0xB0B)], [0, 0, 0, 0]),
     ([("deal", 0xB0B, 5), ("BALANCE", 0xB0B), ("BALANCE", THIS), ("deal", 0xB0B + (1 << 160), 9), ("BALANCE", 0xB0B)], [0, 0, 0, 0]),
     ([("store", THIS, 1, 77), ("SLOAD", 1), ("SLOAD", 2), ("load", THIS, 1), ("load", 0xCAFE, 1), ("store", 0xCAFE, 1, 2), ("SLOAD", 1)], [0, 0, 0, 0]),
     ([("store", HEVM, FAILED_SLOT, 1), ("TIMESTAMP",)], [0, 0, 0, 0]),
@@ -1259,9 +1263,48 @@ def tie_creators(rep, m, tier, r):
                 rep.fail("broken-tie", f"label model {''.join(map(chr, out or []))!r} != python format {exp!r}", case={"label": [i, nm, ty]})
     # freshness on the implementation: one path, many creations, all names distinct, ids consecutive
     nbad += impl_fresh_run(rep, r)
+    nbad += impl_fresh_sevm(rep)
     rep.count("tie", "L1c creator calls", len(cases))
     rep.coverage["L1c_creators"] = {"calls": len(cases), "valuations": len(calls), "widths": "0..257, 300, 2^255", "byte_sizes": sizes}
     return nbad
+
+
+def impl_fresh_sevm(rep):
+    """symbols created by svm.create* / vm.random* calls of one program on the real SEVM
+    (real Exec.new_symbol_id): names pairwise distinct, counters 1..n in order"""
+    import z3
+
+    from halmos.sevm import CallContext
+
+    code = b""
+    calls = [(SVM, SEL["createBool"], [0x20, 1, ord("b") << 248]), (HEVM, keccak_sel("randomUint()"), []),
+             (SVM, SEL["createBool"], [0x20, 1, ord("b") << 248]), (HEVM, keccak_sel("randomBytes8()"), []),
+             (HEVM, keccak_sel("randomUint(uint256,uint256)"), [3, 9]), (SVM, keccak_sel("createBytes32(string)"), [0x20, 1, ord("b") << 248])]
+    for to, sel, args in calls:
+        code += cheat_call(sel, args, to=to, retsize=32)
+    exs = run_program({THIS: code + op("STOP")})
+    names = []
+    for t in exs[0].context.trace:
+        if isinstance(t, CallContext) and t.output.data is not None and len(t.output.data):
+            term = t.output.data.unwrap()
+            found = []
+
+            def walk(x):
+                if z3.is_const(x) and x.decl().kind() == z3.Z3_OP_UNINTERPRETED:
+                    found.append(str(x))
+                for c in x.children():
+                    walk(c)
+
+            if not isinstance(term, bytes):
+                walk(term)
+            names += sorted(set(found))
+    ids = [int(n.rsplit("_", 1)[1]) for n in names]
+    if len(exs) != 1 or len(names) != len(calls) or len(set(names)) != len(names) or ids != list(range(1, len(calls) + 1)):
+        rep.fail("failing-input", f"symbols created by successive svm/vm calls on the real SEVM are not fresh with consecutive counters: {names}",
+                 case={"names": names}, sig={"defect": "fresh_sevm"})
+        return 1
+    rep.evaluations += 1
+    return 0
 
 
 def impl_fresh_run(rep, r):
@@ -1344,7 +1387,7 @@ def run(rep, tier):
                  "exhaustive to length 3 (quick; +4000 sampled of length <= 4) / 5 (thorough), compared with the extracted model after every method (result + object state); "
                  "(L2a) op sequences {prank*, stopPrank, hevm/svm/console call, call/staticcall/create into a fresh contract, return, symbolic branch, second transaction} "
                  "assembled into EVM programs (one contract per entered frame, creations as embedded initcode) and run through SEVM.run / SEVM.run_message; the CALLER/ORIGIN each "
-                 "entered frame logs are compared with the python rendering of Foundry's meaning and with the extracted model; corpus + exhaustive sequences to length 4/5 over an "
+                 "entered frame logs are compared with the python rendering of Foundry's meaning and with the extracted model; corpus + exhaustive sequences to length 3 (+1500 sampled of length 4) / 5 over an "
                  "8-symbol alphabet + seeded random sequences to length 20; non-trivial = contains a prank-family op and a call/create; "
                  "(L2b) programs of state cheatcodes with boundary / random / symbolic (calldata) words and dirty addresses followed by BALANCE/SLOAD/EXTCODESIZE/"
                  "TIMESTAMP/NUMBER/BASEFEE/CHAINID/COINBASE/PREVRANDAO/vm.load reads, symbolic results evaluated under the calldata valuation; "
